@@ -3,6 +3,7 @@ package h
 import (
 	"fmt"
 	"reflect"
+	"sync"
 
 	"github.com/mlange-42/arche/ecs"
 )
@@ -42,8 +43,32 @@ func checkRegistry(s *Sess, where string) bool {
 			return false
 		}
 	}
+	// IDs that this world has not handed out (taken from a full world) are not known to it
+	for _, id := range foreignIDs()[len(ids):] {
+		if info, ok := ecs.ComponentInfo(w, id); ok {
+			s.fail("registry.info", "%s: ComponentInfo reports type %v for an ID beyond the %d registered types", where, info.Type, len(ids))
+			return false
+		}
+		s.Cov.N["registry_unknown_ids"]++
+	}
 	s.Cov.N["registry_checks"]++
 	return true
+}
+
+var (
+	foreignIDList []ecs.ID
+	foreignIDOnce sync.Once
+)
+
+// foreignIDs returns the IDs 0..limit-1, taken from a helper world with a full registry.
+func foreignIDs() []ecs.ID {
+	foreignIDOnce.Do(func() {
+		w := ecs.NewWorld()
+		for i := 0; i < ecs.MaskTotalBits; i++ {
+			foreignIDList = append(foreignIDList, ecs.TypeID(&w, TypeOfKey(fmt.Sprintf("F%d", 9800+i))))
+		}
+	})
+	return foreignIDList
 }
 
 func c16Keys(r *Rng, n int) []string {
